@@ -1,7 +1,7 @@
 (* Property C08 — every JWS the library produces decodes and verifies to what was signed.
    Pinned statements, for EVERY header serialisation oracle with parse (ser h) = Some h. *)
 From Coq Require Import List NArith ZArith Bool.
-From IdV Require Import Lib.Outcome Lib.Base64 Proofs.Base64Proofs Jose.Header Jose.Policy Jose.Jws Proofs.JwsProofs.
+From IdV Require Import Lib.Outcome Lib.Base64 Proofs.Base64Proofs Jose.Header Jose.Policy Jose.Jws Proofs.JwsProofs Doc.Doc Cred.Validate Cred.PresValidate Proofs.PresValidateProofs.
 Import ListNotations.
 Open Scope N_scope.
 
@@ -61,9 +61,32 @@ Section C08.
   Proof. exact (general_roundtrip H hview parse_header ser_header utf8 parse_ser ser_bytes). Qed.
 End C08.
 
+(* CoreDocument::verify_jws (the model shared with C03): a token whose signature is valid under exactly one key km - the key of the method it was
+   produced for - verifies only when the nonce is the configured one and the kid / configured method id resolves, IN THE CONFIGURED SCOPE, to a
+   method carrying km.  Hence never under another method's key, a different nonce, or a scope that excludes the method. *)
+Theorem C08_verify_binds_method_nonce_scope : forall t h o km, (forall k, pt_sig_ok t k = true -> k = km) -> verify_jws t h o = inl tt ->
+  oz_eqb (pt_nonce t) (po_nonce o) = true
+  /\ exists q m, (match po_method_id o with Some u => Some (query_of_url u) | None => pt_kid t end) = Some q
+       /\ resolve_method (h_doc h) q (po_scope o) = Some m /\ is_jwk (m_data m) = true /\ m_data m = km.
+Proof. exact verify_jws_binds. Qed.
+Theorem C08_other_nonce_fails : forall t h o, oz_eqb (pt_nonce t) (po_nonce o) = false -> verify_jws t h o = inr PVNonce.
+Proof. exact verify_jws_other_nonce. Qed.
+Theorem C08_scope_excluding_fails : forall t h o q, oz_eqb (pt_nonce t) (po_nonce o) = true ->
+  (match po_method_id o with Some u => Some (query_of_url u) | None => pt_kid t end) = Some q ->
+  resolve_method (h_doc h) q (po_scope o) = None -> verify_jws t h o = inr PVMethodNotFound.
+Proof. exact verify_jws_scope_excludes. Qed.
+Theorem C08_other_method_key_fails : forall t h o q m km, (forall k, pt_sig_ok t k = true -> k = km) -> oz_eqb (pt_nonce t) (po_nonce o) = true ->
+  (match po_method_id o with Some u => Some (query_of_url u) | None => pt_kid t end) = Some q ->
+  resolve_method (h_doc h) q (po_scope o) = Some m -> m_data m <> km -> verify_jws t h o <> inl tt.
+Proof. exact verify_jws_other_key. Qed.
+
 Print Assumptions C08_base64_decode_encode.
 Print Assumptions C08_base64_canonical.
 Print Assumptions C08_base64_charset.
 Print Assumptions C08_compact_roundtrip.
 Print Assumptions C08_flattened_roundtrip.
 Print Assumptions C08_general_roundtrip.
+Print Assumptions C08_verify_binds_method_nonce_scope.
+Print Assumptions C08_other_nonce_fails.
+Print Assumptions C08_scope_excluding_fails.
+Print Assumptions C08_other_method_key_fails.
